@@ -133,7 +133,8 @@ def all_ops(case):
 def request_line(case, inplace):
     parts = case['parts']
     kind = case['kind']
-    return ' '.join(['run', '1' if inplace else '0', kind, str(len(parts))] + [enc_part(p) for p in parts] +
+    mode = '0' if not inplace else ('2' if case.get('restore') else '1')
+    return ' '.join(['run', mode, kind, str(len(parts))] + [enc_part(p) for p in parts] +
                     [';'.join(f'{k},{enc_props(v)}' for k, v in case.get('cprops', [])) or '-',
                      '!'.join(enc_op(o) for o in all_ops(case)) or '-'])
 
@@ -648,6 +649,9 @@ def judge_case(ctx, case, spec_reply, mirror_reply, count=True):
             if res[1] == 'AttributeError' and 'string_' in res[2] and is_nonnumeric_dummy(case, k - n_pre, op):
                 what = (f'dummy-nonnumeric: op {k - n_pre} `{opname}` raised AttributeError ({res[2][:80]}) where the '
                         f'documented dummy value {describe(m)} is expected')
+            elif k < len(mirror) and mirror[k][0] == 'E' and has_offset(case):
+                what = (f'inplace-offset: op {k - n_pre} `{opname}` raised {res[1]} where {describe(m)} is expected; the '
+                        f'samples it extracted had been shifted by time_offset before')
             else:
                 what = f'op {k - n_pre} `{opname}` raised {res[1]} ({res[2][:100]}) where {describe(m)} is expected'
             findings.append(what)
@@ -894,14 +898,15 @@ def gen_ops(rng, names, dtypes, n_dumps, kind, n_getters, virt):
 
 
 def fix_setg_dtypes(case, dtypes):
-    """a name that receives another getter through cache[name] = getter changes dtype: keep the keyword
-    properties of later reads compatible by dropping dtype-specific ones"""
-    changed = set()
+    """a name that receives another getter through cache[name] = getter changes dtype, and the keyword properties
+    of every earlier read of that name stick to it: keep only dtype-independent properties on such names"""
+    changed = set(op[1] for op in case['ops'] if op[0] == 'setg')
     for op in case['ops']:
-        if op[0] == 'setg':
-            changed.add(op[1])
-        elif op[0] == 'get' and op[1] in changed:
+        if op[0] == 'get' and op[1] in changed:
             op[4] = {k: v for k, v in op[4].items() if k in ('o', 'x')}
+    for p in case['parts']:
+        p['props'] = [[k, ({kk: vv for kk, vv in v.items() if kk in ('o',)} if k in changed else v)] for k, v in p['props']]
+        p['props'] = [kv for kv in p['props'] if kv[1]]
 
 
 def gen_single(rng):
